@@ -302,3 +302,109 @@ def scalar_vector(case, ctx):
         raise Violation("C13.scalar.value", f"{case['op']} with {case['other_kind']} is not element-wise")
     if not (np.array_equal(s.wave, w0) and np.array_equal(s.value, v0)):
         raise Violation("C13.scalar.operand_changed", "the operand was modified")
+
+
+# --- histories: operations interleaved with edits of the operands -----------------------------------
+
+EDITS = ["set_value", "inplace_slice", "inplace_scale", "set_wave", "crop", "pad", "to_unit", "resample"]
+
+
+@st.composite
+def history_case(draw, tier="quick"):
+    w1, k1 = draw(grid_nm(nmin=6, nmax=25))
+    w2, k2 = draw(grid_nm(nmin=6, nmax=25))
+    if draw(st.booleans()):          # overlapping ranges
+        w2 = w1[0] + (w2 - w2[0]) / (w2[-1] - w2[0]) * (w1[-1] - w1[0]) * draw(gen.finite(0.5, 1.5)) \
+             + (w1[-1] - w1[0]) * draw(gen.finite(-0.3, 0.3))
+        w2 = w2 - min(0.0, w2[0] - 150.0)
+    s = draw(st.integers(0, 2**31 - 1))
+    rng = np.random.default_rng(s)
+    method = draw(st.sampled_from(["linear", "quadratic", "cubic"]))
+    steps = []
+    for _ in range(draw(st.integers(2, 8 if tier == "quick" else 14))):
+        if draw(st.floats(0, 1)) < 0.5:
+            steps.append({"kind": "op", "op": draw(st.sampled_from(list(OPS))), "swap": draw(st.booleans()),
+                          "method": method if draw(st.floats(0, 1)) < 0.8 else draw(st.sampled_from(["linear", "quadratic", "cubic"])),
+                          "sampling": draw(st.sampled_from(["min", "min", "left", "right"])),
+                          "fill": draw(st.sampled_from([0, 0, 1.0]))})
+        else:
+            steps.append({"kind": "edit", "edit": draw(st.sampled_from(EDITS)), "target": draw(st.sampled_from(["a", "b"])),
+                          "x": draw(gen.finite(0.0, 1.0)), "y": draw(gen.finite(0.0, 1.0)),
+                          "seed": draw(st.integers(0, 2**31 - 1)), "unit": draw(st.sampled_from(UNITS))})
+    if not any(x["kind"] == "op" for x in steps):
+        steps.append({"kind": "op", "op": "multiply", "swap": False, "method": method, "sampling": "min", "fill": 0})
+    return {"w1_nm": w1, "w2_nm": w2, "v1": rng.uniform(0.5, 2.0, size=len(w1)), "v2": rng.uniform(0.5, 2.0, size=len(w2)),
+            "unit1": draw(st.sampled_from(UNITS)), "unit2": draw(st.sampled_from(UNITS)), "steps": steps}
+
+
+def apply_edit(s, st_):
+    """Edits a spectrum through its public attributes and its documented editing methods."""
+    e = st_["edit"]
+    n = len(s.wave)
+    rng = np.random.default_rng(st_["seed"])
+    if e == "set_value":
+        s.value = rng.uniform(0.5, 2.0, size=n)
+    elif e == "inplace_slice":
+        i = int(st_["x"] * (n - 1))
+        j = min(n, i + 1 + int(st_["y"] * (n - i)))
+        s.value[i:j] = 0.25 + st_["y"]
+    elif e == "inplace_scale":
+        s.value *= 0.5 + st_["x"]
+    elif e == "set_wave":
+        s.wave = np.asarray(s.wave) * (1.0 + 0.05 * st_["x"])
+    elif e == "crop":
+        w = np.asarray(s.wave)
+        if n >= 8:
+            s.crop(w[1 + int(st_["x"] * 2)], w[-2 - int(st_["y"] * 2)])
+    elif e == "pad":
+        if n < 400:
+            w = np.asarray(s.wave)
+            span = w[-1] - w[0]
+            s.pad((max(w[0] - span * 0.1 * (1 + st_["x"]), w[0] * 0.5), w[-1] + span * 0.1 * (1 + st_["y"])),
+                  mode="edge" if st_["seed"] % 2 else "constant")
+    elif e == "to_unit":
+        s.to(st_["unit"])
+    elif e == "resample":
+        w = np.asarray(s.wave)
+        m = max(4, min(60, int(n * (0.6 + st_["x"]))))
+        s.resample(np.linspace(w[0], w[-1], m), waveunit=s.waveunit)
+
+
+@hyp("C13", "edit_history", lambda tier: history_case(tier),
+     "binary operations interleaved with edits of the operands (value/wave assignment, in-place edits of .value, "
+     "crop, pad, to, resample): every operation must equal the same operation on freshly built spectra holding the "
+     "operands' current wave/value/units", examples=(300, 1200), budget_s=(120, 600))
+def edit_history(case, ctx):
+    a = mk(case["w1_nm"], case["v1"], case["unit1"], None)
+    b = mk(case["w2_nm"], case["v2"], case["unit2"], None)
+    done, n_ops, edited_since_op = [], 0, False
+    for i, st_ in enumerate(case["steps"]):
+        if st_["kind"] == "edit":
+            tgt = a if st_["target"] == "a" else b
+            with lentil_call("C13.edit_history", f"edit {st_['edit']} [{' '.join(done)}]"):
+                apply_edit(tgt, st_)
+            done.append(f"{st_['target']}.{st_['edit']}")
+            edited_since_op = edited_since_op or n_ops > 0
+            continue
+        x, y = (b, a) if st_["swap"] else (a, b)
+        fx = Spectrum(np.array(x.wave, dtype=float), np.array(x.value, dtype=float), waveunit=x.waveunit, valueunit=x.valueunit)
+        fy = Spectrum(np.array(y.wave, dtype=float), np.array(y.value, dtype=float), waveunit=y.waveunit, valueunit=y.valueunit)
+        kw = dict(sampling=st_["sampling"], method=st_["method"], fill_value=st_["fill"])
+        label = f"{'b' if st_['swap'] else 'a'}.{st_['op']}({st_['method']},{st_['sampling']})"
+        with lentil_call("C13.edit_history", f"{label} after [{' '.join(done)}]"):
+            with np.errstate(all="ignore"):
+                got = getattr(x, st_["op"])(y, **kw)
+                ref = getattr(fx, st_["op"])(fy, **kw)
+        done.append(label)
+        n_ops += 1
+        gw, gv = np.asarray(got.wave, dtype=float), np.asarray(got.value, dtype=float)
+        rw, rv = np.asarray(ref.wave, dtype=float), np.asarray(ref.value, dtype=float)
+        fin = np.isfinite(rv)
+        sc = max(cm_max(rv[fin]), 1e-300)
+        if got.waveunit != ref.waveunit or gw.shape != rw.shape or not close(gw, rw, 1e-12) \
+                or not np.array_equal(np.isfinite(gv), fin) or np.any(np.abs(gv[fin] - rv[fin]) > 1e-10 * sc):
+            raise Violation("C13.edit_history.stale", f"step {i}: {label} differs from the same operation on fresh spectra "
+                                                      f"with the operands' current data [history: {' '.join(done)}]")
+    ctx.tag(f"ops:{min(n_ops, 4)}", "edit_between_ops" if edited_since_op else None,
+            *sorted({"edit:" + x["edit"] for x in case["steps"] if x["kind"] == "edit"}))
+    ctx.nontrivial_if(edited_since_op and n_ops >= 2)
